@@ -12,6 +12,7 @@ CONSTANTS
   CallbackOwnOnly = FALSE
   RemoveCancels = TRUE
   CycleSkipsLocked = TRUE
+  OfferSkipsLocked = TRUE
 INVARIANT TypeOK
 INVARIANT AtMostOneNegotiation
 INVARIANT SlotsTrackLive
